@@ -51,6 +51,7 @@ type MResult struct {
 	DoubleRelease int
 	DoubleAt      string
 	Stalled       string
+	AliasLeft     bool // after the meta process has terminated its alias still resolves in the node
 }
 
 var metaLabelCode = map[string]int{
@@ -343,6 +344,14 @@ func runMetaCase(node gen.Node, c MCase) (MResult, [][]int) {
 	res.MaxOpen = pr.maxOpen
 	res.DoubleRelease, res.DoubleAt = pool.report()
 	pr.mu.Unlock()
+	if res.Stalled == "" {
+		// every goroutine of the meta process has finished, so it has terminated: its alias must have been released
+		// (C06). Probed without the scheduler: a send to an alias nobody owns fails.
+		sch.uninstall()
+		if err := node.Send(alias, "probe after termination"); err == nil {
+			res.AliasLeft = true
+		}
+	}
 	node.Kill(ppid)
 	return res, enabledAt
 }
